@@ -194,6 +194,56 @@ fn main() {
                 emit(&structured(&mut rng));
             }
         }
+        "strparse" => {
+            // `<hex literal text> <hex value darklua reads, or ERR>`: source spellings of string literals, in
+            // particular long brackets holding every kind of line break
+            let seed = arg_u64(args, "--seed", 1);
+            let n = arg_u64(args, "--n", 300);
+            let mut rng = Rng::new(seed ^ 0x57a);
+            let mut literals: Vec<Vec<u8>> = Vec::new();
+            let pieces: [&[u8]; 12] = [b"first", b"\r\n", b"\n", b"second", b"\r\n\r\n", b" ", b"x\ry", b"]", b"]=", b"\\n", b"\t", b"\xc3\xa9"];
+            for level in 0..3usize {
+                let open = format!("[{}[", "=".repeat(level)).into_bytes();
+                let close = format!("]{}]", "=".repeat(level)).into_bytes();
+                for lead in [&b""[..], b"\n", b"\r\n", b"\n\n", b"\r\n\r\n", b"x"] {
+                    for _ in 0..(n / 18 + 1) {
+                        let mut body: Vec<u8> = lead.to_vec();
+                        for _ in 0..rng.below(6) {
+                            body.extend_from_slice(*rng.pick(&pieces));
+                        }
+                        // keep the closer of this level out of the body and do not end in a half closer
+                        let text = String::from_utf8_lossy(&body).into_owned();
+                        if text.contains(&String::from_utf8_lossy(&close).into_owned()) || body.ends_with(b"]") || body.ends_with(b"=") {
+                            continue;
+                        }
+                        // lone CR right after the opening bracket / LF CR pairs: Lua 5.1 and Luau differ, left out
+                        if body.starts_with(b"\r") && !body.starts_with(b"\r\n") || text.contains("\n\r") {
+                            continue;
+                        }
+                        let mut lit = open.clone();
+                        lit.extend_from_slice(&body);
+                        lit.extend_from_slice(&close);
+                        literals.push(lit);
+                    }
+                }
+            }
+            for q in [b'"', b'\''] {
+                for body in [&b"a\\\nb"[..], b"\\z  \n  b", b"\\x41\\u{48}\\065\\0659", b"\\\\", b"tab\\t", b""] {
+                    let mut lit = vec![q];
+                    lit.extend_from_slice(body);
+                    lit.push(q);
+                    literals.push(lit);
+                }
+            }
+            for lit in literals {
+                let text = String::from_utf8_lossy(&lit).into_owned();
+                let value = match StringExpression::new(&text) {
+                    Ok(expr) => hex(expr.get_value()),
+                    Err(_) => "ERR".to_owned(),
+                };
+                println!("{} {}", hex(text.as_bytes()), value);
+            }
+        }
         "segments" => {
             // `<hex value> <hex written segment> <hex dense text> <hex readable text>`: the literal part of an
             // interpolated string, alone and followed by a hole
